@@ -371,6 +371,10 @@ def finish(pid: str, tier: str, seed: int, results: List[dict], t0: float, level
                       'trivial); distinct = distinct (obligation id, configuration) pairs; decided_by_simplifier counts '
                       'the goals that z3.simplify already reduced to false after the proxies\' normal forms'),
         samples=samples[:60],
+        # model-checking style keys: explored symbolic paths, branch decisions taken, counterexamples replayed
+        states=max(1, stats['paths']),
+        transitions=max(1, stats['branch_queries']),
+        traces_validated_against_impl=sum(replayed_per_oid.values()) + len(known_done),
         obligations=len(safety),
         discharged=n_dis,
         decided_by_simplifier=stats['by_simplifier'],
